@@ -58,6 +58,16 @@ def build():
     ts = cc.Schema()
     ts.r = cc.StringField(required=True, default="t")
     s.t = cc.make_type(ts, "T11")
+    ti = cc.Schema()                    # the item schema once more, as a config type
+    ti.r = cc.StringField(required=True, min_len=0, transform_strip=True)
+    ti.n = cc.IntField()
+    s.titems = cc.ListField(cc.make_type(ti, "TI11"))
+
+    @cc.validator(ti)
+    def v_titem(cfg):
+        LOG.append(("item", id(cfg), cfg.n))
+        if cfg.n == 13:
+            raise AssertionError("unlucky")
 
     @cc.validator(s)
     def v_root(cfg):
@@ -69,7 +79,7 @@ def build():
     def v_sub(cfg):
         LOG.append(("sub", id(cfg), cfg.a))
         if cfg.a is not None and cfg.a > 10:
-            raise ValueError("a too big")
+            raise KeyError("a too big")          # validators are user code: whatever they raise is a failed validation
 
     @cc.validator(s.sub.deep)
     def v_deep(cfg):
@@ -79,7 +89,7 @@ def build():
     def v_item(cfg):
         LOG.append(("item", id(cfg), cfg.n))
         if cfg.n == 13:
-            raise ValueError("unlucky")
+            raise AssertionError("unlucky")
 
     @cc.validator(ts)
     def v_t(cfg):
@@ -97,27 +107,27 @@ def build():
     def v_fz(cfg, value):
         LOG.append(("fz", id(cfg), value))
         if value == 0:
-            raise ValueError("must not be zero")
+            raise ZeroDivisionError("must not be zero")
         return value
 
     @cc.validator(s.fl)
     def v_fl(cfg, value):
         LOG.append(("fl", id(cfg), list(value)))
         if len(value) == 0:
-            raise ValueError("must not be empty")
+            raise LookupError("must not be empty")
         return value
 
     @cc.validator(s.free)
     def v_free(cfg):
         LOG.append(("free", id(cfg), getattr(cfg, "forbidden", None)))
         if getattr(cfg, "forbidden", None):
-            raise ValueError("forbidden is set")
+            raise RuntimeError("forbidden is set")
 
     @cc.validator(s.fv)
     def v_fv(cfg, value):
         LOG.append(("fv", id(cfg), value))
         if value is not None and value % 2:
-            raise ValueError("must be even")
+            raise ArithmeticError("must be even")
         return value
     return s
 
@@ -811,20 +821,44 @@ def _anydict(job, ctx):
     ctx.traces += 1
 
 
+class _ListAs:
+    """view of a configuration in which `.items` names another of its list fields"""
+
+    def __init__(self, cfg, key):
+        object.__setattr__(self, "real", cfg)
+        object.__setattr__(self, "key", key)
+
+    def __getattr__(self, name):
+        return getattr(self.real, self.key if name == "items" else name)
+
+    def __setattr__(self, name, value):
+        setattr(self.real, self.key if name == "items" else name, value)
+
+
 def _inserts(job, ctx):
     """items of configuration lists are held to the rule when inserted: append / insert / index assignment / list assignment"""
     import cincoconfig as cc
     only = job.get("only")
     schema = build()
     good, bad_r, bad_n, none_r = {"r": "i", "n": 1}, {"n": 2}, {"r": "j", "n": 13}, {"r": None}
-    for how in ("append-dict", "append-config", "insert-dict", "setitem-dict", "assign-list", "iadd", "extend", "setslice"):
-        for name, item, ok in (("good", good, True), ("missing-r", bad_r, False), ("validator", bad_n, False), ("none-r", none_r, False)):
+    for how in ("append-dict", "append-config", "insert-dict", "setitem-dict", "assign-list", "iadd", "extend", "setslice",
+                "type:append-dict", "type:insert-dict", "type:setitem-dict", "type:assign-list", "type:iadd", "type:extend", "type:setslice", "type:load_tree", "type:loads"):
+        for name, item, ok in (("good", good, True), ("missing-r", bad_r, False), ("validator", bad_n, False), ("none-r", none_r, False), ("empty-map", {}, False)):
             for rootflag in (True, False):
                 if only is not None and only != [how, name, rootflag]:
+                    continue
+                if name == "empty-map" and not how.startswith("type:"):
                     continue
                 cfg = schema()
                 cfg.load_tree(copy.deepcopy(VALID_TREE))
                 cfg.flag = rootflag
+                if how.startswith("type:"):
+                    # the same list operations on a list whose item type is a config type
+                    cfg.titems = [dict(good)]
+                    how0, how = how, how.split(":")[1]
+                    cfg_real, cfg = cfg, _ListAs(cfg, "titems")
+                else:
+                    how0 = how
                 del LOG[:]
                 ctx.transitions += 1
                 val = dict(item)
@@ -848,9 +882,14 @@ def _inserts(job, ctx):
                         cfg.items.extend([dict(good), val])
                     elif how == "setslice":
                         cfg.items[0:1] = [val]
+                    elif how == "load_tree":
+                        cfg.real.load_tree({"titems": [dict(good), val]})
+                    elif how == "loads":
+                        cfg.real.loads(json.dumps({"titems": [val]}), "json")
                     raised = None
                 except Exception as exc:  # noqa
                     raised = exc
+                how = how0
                 ctx.case((how, name, rootflag), "insert:%s:%s" % ("ok" if ok else "bad", "raised" if raised else "returned"), True)
                 case = _case(job, [how, name, rootflag])
                 if ok and raised is not None:
